@@ -84,6 +84,13 @@ func ParseReadDiscreteInputsRequestTCP(data []byte) (*ReadDiscreteInputsRequestT
 		return nil, err
 	}
 	unitID := data[6]
+	if len(data) < 12 {
+		tmpErr := NewErrorParseTCP(ErrIllegalDataValue, "received data length too short to be valid packet")
+		tmpErr.Packet.TransactionID = header.TransactionID
+		tmpErr.Packet.UnitID = unitID
+		tmpErr.Packet.Function = FunctionReadDiscreteInputs
+		return nil, tmpErr
+	}
 	if data[7] != FunctionReadDiscreteInputs {
 		tmpErr := NewErrorParseTCP(ErrIllegalFunction, "received function code in packet is not 0x02")
 		tmpErr.Packet.TransactionID = header.TransactionID
